@@ -379,6 +379,29 @@ func (c *Chain) RandomTx(r *rand.Rand) {
 		if f := c.Cfg.StateMachineConfig.FaucetAddress; f != "" && f == hx(from.Addr) && amt > 1<<40 {
 			amt = 1 << 40 // a faucet top-up mints `amount + fee - balance` unguarded (scenario `faucet-mint-wraps-total`)
 		}
+		if r.Intn(3) == 0 {
+			// a vesting send: schedules around the current height (not started / before the cliff / running / over), often
+			// one of a few fixed schedules so that a second send to the same recipient is a top-up with identical terms -
+			// in this block or in a later one - or meets a still-locked tranche with different terms
+			h := c.Height()
+			var vs, vc, ve uint64
+			switch r.Intn(8) {
+			case 0, 1, 2:
+				vs, vc, ve = 1, 2, 40
+			case 3:
+				vs, vc, ve = 1, 1, 6
+			case 4:
+				vs, vc, ve = h+uint64(r.Intn(3)), h+uint64(1+r.Intn(3)), h+uint64(3+r.Intn(5))
+			case 5:
+				vs, vc, ve = 0, uint64(r.Intn(3)), uint64(1+r.Intn(int(h)+3))
+			case 6: // malformed: end <= start, cliff outside
+				vs, vc, ve = uint64(r.Intn(5)), uint64(r.Intn(9)), uint64(r.Intn(5))
+			default:
+				vs, vc, ve = uint64(r.Intn(4)), uint64(r.Intn(6)), MaxU-uint64(r.Intn(2))
+			}
+			c.SendVesting(from, c.feeFor(r, fsm.MessageSendName), to, amt, vs, vc, ve)
+			return
+		}
 		c.Send(from, c.feeFor(r, fsm.MessageSendName), to, amt)
 	case k < 10: // stake
 		delegate := r.Intn(3) == 0
